@@ -5,6 +5,7 @@ let dispatch = function
   | "cc_bd" -> let w = next_mat next_q in p_list p_q (run_cc_bd w)
   | "cc_wu" -> let w = next_mat next_q in p_list p_q (run_cc_wu w)
   | "cc_wd" -> let w = next_mat next_q in p_list p_q (run_cc_wd w)
+  | "cc_o" -> let w = next_mat next_q in let k = next_nat () in p_list (p_opt p_q) (run_cc_o w k)
   | "trans" -> let w = next_mat next_q in let k = next_nat () in p_opt p_q (run_trans w k)
   | "deg" -> let w = next_mat next_q in let k = next_nat () in p_list p_q (run_deg w k)
   | "dbin" -> let a = next_mat next_z in p_opt (p_mat (p_opt p_nat)) (run_dbin a)
